@@ -1,6 +1,6 @@
 (* Runner.v — top of the executable model: dispatches one request line. *)
 From Coq Require Import String.
-From GS Require Import GoSem Text Dispatch DispatchHuman DispatchParsers DispatchScan DispatchRef DispatchConfig DispatchOutput DispatchOptions.
+From GS Require Import GoSem Text Dispatch DispatchHuman DispatchParsers DispatchScan DispatchRef DispatchConfig DispatchOutput DispatchOptions DispatchMeter.
 Open Scope N_scope.
 
 Definition first_some (l : list (option bytes)) : bytes :=
@@ -18,6 +18,7 @@ Definition dispatch (line : bytes) : bytes :=
                    dispatch_ref cmd args;
                    dispatch_config cmd args;
                    dispatch_output cmd args;
-                   dispatch_options cmd args ]
+                   dispatch_options cmd args;
+                   dispatch_meter cmd args ]
   | [] => err "empty"
   end.
